@@ -181,7 +181,8 @@ theorem searchChunk_run (L : Lawful V) (ns : Needles) (m : Mem) (cur : Nat)
       (ChunkHit V m ns.confirm cur ∧
         searchChunk V ns m cur topos c =
           (topos (chunkMask V (chunkEqs V ns (m.window cur V.bytes))) >>=
-            fun off => pure (some (cur + off))) c') := by
+            fun off => m.padd "search_chunk: cur.add(mask_to_offset(mask))" cur off >>=
+              fun p => pure (some p)) c') := by
   refine ⟨{ steps := c.steps + 1,
             loads := ⟨m.region, cur - m.base, V.bytes, false⟩ :: c.loads }, ?_⟩
   unfold searchChunk VecImpl.loadU
@@ -202,7 +203,7 @@ theorem searchChunk_first (L : Lawful V) (ns : Needles) (m : Mem) (cur : Nat) (c
   · exact ⟨none, c', h.2, noHit_of_not_chunkHit h.1⟩
   · obtain ⟨k, hk, hlt, hfk, hmin⟩ := (chunkMask_rep L ns m cur).firstOffset hhit c'
     refine ⟨some (cur + k), c', ?_, ?_⟩
-    · rw [hrun, bind_ok hk]; rfl
+    · rw [hrun, bind_ok hk, Mem.padd_ok m _ cur k h1 (by omega)]; rfl
     · refine ⟨by omega, by omega, hfk, ?_⟩
       intro a ha hb
       have := hmin (a - cur) (by omega)
@@ -217,7 +218,7 @@ theorem searchChunk_last (L : Lawful V) (ns : Needles) (m : Mem) (cur : Nat) (c 
   · exact ⟨none, c', h.2, noHit_of_not_chunkHit h.1⟩
   · obtain ⟨k, hk, hlt, hfk, hmax⟩ := (chunkMask_rep L ns m cur).lastOffset hhit c'
     refine ⟨some (cur + k), c', ?_, ?_⟩
-    · rw [hrun, bind_ok hk]; rfl
+    · rw [hrun, bind_ok hk, Mem.padd_ok m _ cur k h1 (by omega)]; rfl
     · refine ⟨by omega, by omega, hfk, ?_⟩
       intro a ha hb
       have := hmax (a - cur) (by omega) (by omega)
@@ -287,6 +288,17 @@ theorem zip_map_self {α β : Type} (l : List α) (f : α → β) :
 
 /-! ### `blockOr`, `blockHit`, `block` -/
 
+/-- `hitPtr` for a chunk address `a` of the block at `cur` and an offset inside the chunk: both
+pointer additions stay inside the allocation. -/
+theorem hitPtr_ok (m : Mem) (fn : String) (cur a k : Nat) (topos : V.Mask → M Nat)
+    (mask : V.Mask) (c : Ctr) (hk : topos mask c = .ok k c) (h1 : m.base ≤ cur) (h2 : cur ≤ a)
+    (h3 : a + k ≤ m.base + m.bytes.size) :
+    hitPtr V m fn cur a topos mask c = .ok (some (a + k)) c := by
+  unfold hitPtr
+  rw [Mem.padd_ok m _ cur (a - cur) h1 (by omega)]
+  simp only [pure_bind', bind_ok hk, Mem.padd_ok m _ a k (by omega) h3]
+  rfl
+
 theorem foldl_blockOr (ns : Needles) (m : Mem) (as : List Nat) (g : Nat → Bool) :
     (as.map (fun a => chunkEqs V ns (m.window a V.bytes))).foldl
         (fun acc e' => Vec.or acc (chunkOr e')) (bvec V.bytes g)
@@ -314,13 +326,14 @@ theorem blockOr_eq (ns : Needles) (m : Mem) (as : List Nat) :
 
 /-- Structure of `blockHit`: it returns through the first entry (in list order) whose mask is
 non-zero. -/
-theorem blockHit_gen (topos : V.Mask → M Nat) (F : Nat → Vec × List Vec) (as : List Nat)
+theorem blockHit_gen (m : Mem) (fn : String) (cur : Nat) (topos : V.Mask → M Nat)
+    (F : Nat → Vec × List Vec) (as : List Nat)
     (h : ∃ a, a ∈ as ∧ V.hasNonZero (chunkMask V (F a)) = true) :
     ∃ pre a post, as = pre ++ a :: post ∧
       (∀ b, b ∈ pre → ¬ V.hasNonZero (chunkMask V (F b)) = true) ∧
       V.hasNonZero (chunkMask V (F a)) = true ∧
-      blockHit V topos (as.map (fun a => (a, F a))) =
-        (topos (chunkMask V (F a)) >>= fun off => pure (some (a + off))) := by
+      blockHit V m fn cur topos (as.map (fun a => (a, F a))) =
+        hitPtr V m fn cur a topos (chunkMask V (F a)) := by
   induction as with
   | nil => obtain ⟨a, ha, _⟩ := h; cases ha
   | cons x xs ih =>
@@ -356,7 +369,7 @@ theorem block_run (L : Lawful V) (ns : Needles) (u : Nat) (rev : Bool) (m : Mem)
         block V ns u rev m cur topos c = .ok none c') ∨
       ((∃ a, a ∈ chunkAddrs V cur u ∧ ChunkHit V m ns.confirm a) ∧
         block V ns u rev m cur topos c =
-          blockHit V topos
+          blockHit V m (if rev then "rfind_raw" else "find_raw") cur topos
             ((if rev then (chunkAddrs V cur u).reverse else chunkAddrs V cur u).map
               (fun a => (a, chunkEqs V ns (m.window a V.bytes)))) c') := by
   obtain ⟨c', hl⟩ := loadChunks_ok (V := V) m cur u { c with steps := c.steps + 1 } h1 h2 h3
@@ -406,7 +419,7 @@ theorem block_first (L : Lawful V) (ns : Needles) (u : Nat) (m : Mem) (cur : Nat
   obtain ⟨c', h | ⟨hhit, hrun⟩⟩ := block_run L ns u false m cur V.firstOffset c h1 h2 h3
   · exact ⟨none, c', h.2, h.1⟩
   · obtain ⟨pre, a, post, e, hpre, ha, hbh⟩ :=
-      blockHit_gen (V := V) V.firstOffset (fun a => chunkEqs V ns (m.window a V.bytes))
+      blockHit_gen (V := V) m "find_raw" cur V.firstOffset (fun a => chunkEqs V ns (m.window a V.bytes))
         (chunkAddrs V cur u)
         (by obtain ⟨a, ha, hc⟩ := hhit
             exact ⟨a, ha, (chunkHit_iff_hasNonZero L ns m a).mpr hc⟩)
@@ -421,7 +434,8 @@ theorem block_first (L : Lawful V) (ns : Needles) (u : Nat) (m : Mem) (cur : Nat
     refine ⟨some (a + k), c', ?_, ?_⟩
     · rw [hrun]
       simp only [Bool.false_eq_true, if_false]
-      rw [hbh, bind_ok hk]; rfl
+      rw [hbh]
+      exact hitPtr_ok m _ cur a k _ _ c' hk h1 m1 (by omega)
     · refine ⟨by omega, by omega, hfk, ?_⟩
       intro x hx hxlt
       obtain ⟨b, hb, b1, b2⟩ := chunkAddrs_cover (V := V) (cur := cur) (u := u) hx (by omega)
@@ -443,7 +457,7 @@ theorem block_last (L : Lawful V) (ns : Needles) (u : Nat) (m : Mem) (cur : Nat)
   obtain ⟨c', h | ⟨hhit, hrun⟩⟩ := block_run L ns u true m cur V.lastOffset c h1 h2 h3
   · exact ⟨none, c', h.2, h.1⟩
   · obtain ⟨pre, a, post, e, hpre, ha, hbh⟩ :=
-      blockHit_gen (V := V) V.lastOffset (fun a => chunkEqs V ns (m.window a V.bytes))
+      blockHit_gen (V := V) m "rfind_raw" cur V.lastOffset (fun a => chunkEqs V ns (m.window a V.bytes))
         (chunkAddrs V cur u).reverse
         (by obtain ⟨a, ha, hc⟩ := hhit
             exact ⟨a, List.mem_reverse.mpr ha, (chunkHit_iff_hasNonZero L ns m a).mpr hc⟩)
@@ -460,7 +474,8 @@ theorem block_last (L : Lawful V) (ns : Needles) (u : Nat) (m : Mem) (cur : Nat)
     refine ⟨some (a + k), c', ?_, ?_⟩
     · rw [hrun]
       simp only [if_true]
-      rw [hbh, bind_ok hk]; rfl
+      rw [hbh]
+      exact hitPtr_ok m _ cur a k _ _ c' hk h1 m1 (by omega)
     · refine ⟨by omega, by omega, hfk, ?_⟩
       intro x hx hxlt
       obtain ⟨b, hb, b1, b2⟩ := chunkAddrs_cover (V := V) (cur := cur) (u := u) (x := x)
